@@ -190,8 +190,14 @@ Checks strengthened because a seeded change was first missed:
 
 ### 9.7 Behaviour-preserving changes (false-alarm trials)
 
-A sub-agent given all twenty statements produced eight refactors that keep
-every property (plus all eight combined).  `tools/run_equiv.py` applies each
+Sub-agents given all twenty statements produced two rounds of eight refactors
+that keep every property (E1..E8, F1..F8, plus each round's eight combined: ALL,
+FALL).  The second round was asked for the kinds of change the later monitors
+could wrongly flag: `posix_memalign` allocation, word-wise counter arithmetic,
+correct bulk paths, restructured CPU detection, Mantis parallel batches staged
+through a local buffer (with aliased tweak arrays), zero-length early-outs after
+validation plus `assert()`s and `__OPTIMIZE_SIZE__` loops, new stdio buffering
+in the tools, and a restructured Arduino CTR.  `tools/run_equiv.py` applies each
 to a scratch worktree and runs every check (quick tier): all must exit 0.
 Results are kept under `seeded/equivalent/<name>/`.
 
@@ -203,8 +209,8 @@ This is the evidence that the behavioural (not structural) oracles hold up:
 a different generic `parallel_size`, a `memset`+barrier wipe, re-encoded and
 reordered private context fields, a different aligned-allocation strategy, an
 algebraically different S-box, scratch writes into unused schedule entries,
-reordered handle initialisation / cleanup and a rewritten option parser raise
-no alarm.
+reordered handle initialisation / cleanup, a rewritten option parser, and the
+second round listed above raise no alarm.
 
 ### 9.8 What the workloads execute (line coverage, diagnostic)
 
